@@ -34,7 +34,15 @@ def discharge(ex, ob, timeout_ms):
     elif r == z3.sat:
         ob.status = 'refuted'
     else:
-        ob.status = 'undecided'
+        r2 = ex.check(ob.pc, [] if z3.is_false(g) else [z3.Not(g)],
+                      timeout=max(6 * timeout_ms, 60000))
+        if r2 == z3.unsat:
+            ob.status = 'proved'
+            ob.extra['by'] = 'z3 (retry)'
+        elif r2 == z3.sat:
+            ob.status = 'refuted'
+        else:
+            ob.status = 'undecided'
 
 
 def model_for(ex, ob, timeout_ms):
